@@ -16,8 +16,8 @@ CONTRACTS[F + "contract_pair"] = dict(
     requires=[],
     ghost_init="src = np.zeros(len(char_list) + 1, dtype=np.int64)",
     ghost_after=[
-        ("new_char_index += 1", 1, "src[new_char_index] = i + 1 + (1 if skip_char else 0)"),
-        ("new_char_index += 1", 2, "src[new_char_index] = len(char_list)"),
+        ("@augassign:new_char_index", 1, "src[new_char_index] = i + 1 + (1 if skip_char else 0)"),
+        ("@augassign:new_char_index", 2, "src[new_char_index] = len(char_list)"),
     ],
     returns="int[]",
     ensures=["len(result) <= len(char_list)", "unchanged(char_list)"],
@@ -45,8 +45,8 @@ CONTRACTS[F + "contract_and_count_pairs"] = dict(
     returns="(int[],dict[pair,int])",
     ghost_init="src = np.zeros(len(char_list) + 1, dtype=np.int64)",
     ghost_after=[
-        ("new_char_index += 1", 1, "src[new_char_index] = i + 1 + (1 if skip_char else 0)"),
-        ("new_char_index += 1", 2, "src[new_char_index] = len(char_list)"),
+        ("@augassign:new_char_index", 1, "src[new_char_index] = i + 1 + (1 if skip_char else 0)"),
+        ("@augassign:new_char_index", 2, "src[new_char_index] = len(char_list)"),
     ],
     ensures=["len(result[0]) <= len(char_list)", "unchanged(char_list)"],
     returns_alias_tuple=None,
